@@ -59,6 +59,15 @@ it
             acc == fold_dot(self@, y@, it.index@ as int),
 //@end
 
+//@fn file=src/algebra/vecmath.rs in="VectorMath<T> for [T]" name=sum rules=R1,R24,zipidx:1=i ret=r
+//@iter 1
+it
+//@loop 1
+        invariant
+            it.seq().len() == r14_n1, range_from(it.seq(), 0), r14_n1 == self@.len(),
+            acc == fold_sum(self@, it.index@ as int),
+//@end
+
 //@fn file=src/algebra/vecmath.rs in="VectorMath<T> for [T]" name=sumsq rules=R1 ret=r
 //@pre
         proof { reveal(vm_dot); reveal(vm_sumsq); }
